@@ -26,7 +26,8 @@ LinCases == {[Blank EXCEPT !.kind = "lin", !.n = n, !.cnt = i] : n \in {1, 6, 25
 TableCases ==
   {[Blank EXCEPT !.kind = "table", !.pos = p, !.win = w, !.cnt = 0] : p \in (IF Tier = "quick" THEN {5, 255} ELSE 5 .. 255), w \in (IF Tier = "quick" THEN {0, 1, 15, 31} ELSE 0 .. 31)}
   \cup {[Blank EXCEPT !.kind = "table", !.pos = p, !.win = w, !.cnt = (IF Tier = "quick" THEN 300 ELSE 4096)] : p \in (IF Tier = "quick" THEN {0, 4} ELSE 0 .. 4), w \in (IF Tier = "quick" THEN {0, 15} ELSE 0 .. 15)}
-Cases == DigitCases \cup VecCases \cup LinCases \cup TableCases \cup {[Blank EXCEPT !.kind = "crs"]}
+ReuseCases == {[Blank EXCEPT !.kind = "reuse", !.n = n, !.cnt = c] : n \in {1, 6, 256}, c \in (IF Tier = "quick" THEN 0 .. 2 ELSE 0 .. 29)}
+Cases == DigitCases \cup VecCases \cup LinCases \cup TableCases \cup ReuseCases \cup {[Blank EXCEPT !.kind = "crs"]}
 VARIABLE done
 Init == done = FALSE
 Next == ~done /\ done' = ndJsonSerialize(Out, SetToSeq(Cases))
